@@ -2,7 +2,9 @@
 Lane SIM: every SIGUSR1 the parent sends is matched to a job with an expired
 effective soft limit that was unresolved and not signalled before; timeout
 callback told soft=True and the limit; precedence job over pool.  Lane REAL
-(vmon.real_c06): tasks count the SoftTimeLimitExceeded they see."""
+(vmon.real_c06): tasks count the SoftTimeLimitExceeded they see; close() while
+a soft-limited job runs; a job finishing in time whose slow result callback is
+still running when the limit's instant passes."""
 from vmon import simcheck
 
 PROPERTY = 'C06'
